@@ -411,3 +411,85 @@ pub fn main(args: &[String]) {
     tw.finish();
     println!("{}", json!({"scenarios": scens.len(), "repairs": nrep}));
 }
+
+/// Engine "many": COUNTS of files rather than sizes (thousands of small files, added one after another): the
+/// round trip (C01) and the repair of the intact archive and of one cut (C05, C02).  args: mode out.json N
+pub fn main_many(args: &[String]) {
+    quiet_panics();
+    let mode = args[0].as_str();
+    let n: usize = args[2].parse().unwrap();
+    let mut viol: Vec<Value> = vec![];
+    let mut done = vec![];
+    for st in ["raw", "comp+enc", "enc"] {
+        let par = Par::from_json(&json!({"stack": st, "seed": 9, "level": 1}));
+        let content = |i: usize| -> Vec<u8> { archive::file_bytes(&par, (i % 251) as u64, i % 13, i % 29) };
+        let r = guarded(|| -> Result<(), (String, String)> {
+            let mut w = ArchiveWriter::from_config(Vec::new(), archive::writer_config(&par)).map_err(|e| ("create-error".to_string(), format!("{e:?}")))?;
+            for i in 0..n {
+                let c = content(i);
+                w.add_file(&format!("dir{}/file-{i}", i % 17), c.len() as u64, &c[..]).map_err(|e| ("valid-call-refused".to_string(), format!("add_file #{i}: {e:?}")))?;
+            }
+            w.finalize().map_err(|e| ("valid-call-refused".to_string(), format!("finalize: {e:?}")))?;
+            let bytes = w.into_raw();
+            if mode == "roundtrip" {
+                let mut rd = ArchiveReader::from_config(Cursor::new(bytes), archive::reader_config(&par)).map_err(|e| ("open-error".to_string(), format!("{e:?}")))?;
+                let names: Vec<String> = rd.list_files().map_err(|e| ("list-error".to_string(), format!("{e:?}")))?.cloned().collect();
+                if names.len() != n {
+                    return Err(("list-mismatch".into(), format!("{} names listed, {n} added", names.len())));
+                }
+                for i in (0..n).step_by(37).chain([n - 1]) {
+                    let name = format!("dir{}/file-{i}", i % 17);
+                    let mut got = vec![];
+                    let mut f = rd.get_file(name.clone()).map_err(|e| ("read-error".to_string(), format!("{name}: {e:?}")))?.ok_or(("list-mismatch".to_string(), format!("{name} missing")))?;
+                    f.data.read_to_end(&mut got).map_err(|e| ("read-error".to_string(), format!("{name}: {e:?}")))?;
+                    if got != content(i) || f.size != got.len() as u64 {
+                        return Err(("content-mismatch".into(), name));
+                    }
+                }
+                return Ok(());
+            }
+            for (cut, label) in [(bytes.len(), "intact"), (bytes.len() / 3, "cut")] {
+                let mut cfg = archive::reader_config(&par);
+                let _ = &mut cfg;
+                let mut fs = ArchiveFailSafeReader::from_config(&bytes[..cut], cfg).map_err(|e| ("repair-open".to_string(), format!("{e:?}")))?;
+                let mut wcfg = ArchiveWriterConfig::new();
+                wcfg.set_layers(Layers::EMPTY);
+                let mut out = ArchiveWriter::from_config(Vec::new(), wcfg).map_err(|e| ("create-error".to_string(), format!("{e:?}")))?;
+                let status = fs.convert_to_archive(&mut out).map_err(|e| ("repair-fatal".to_string(), format!("{label}: {e:?}")))?;
+                let st_name = status_name(&status);
+                let outb = out.into_raw();
+                let mut rd = ArchiveReader::new(Cursor::new(outb)).map_err(|e| ("repaired-does-not-open".to_string(), format!("{label}: {e:?}")))?;
+                let names: Vec<String> = rd.list_files().map_err(|e| ("list-error".to_string(), format!("{e:?}")))?.cloned().collect();
+                if label == "intact" {
+                    if st_name != "End" || names.len() != n {
+                        return Err(("CompleteOnIntact".into(), format!("status {st_name}, {} of {n} files recovered", names.len())));
+                    }
+                } else if st_name == "End" && names.len() != n {
+                    // (a cut inside the index, after the end marker, rightly reports the end with every file)
+                    return Err(("EndOnlyIfComplete".into(), format!("cut archive: status End with {} of {n} files", names.len())));
+                }
+                let unf: std::collections::HashSet<String> = unfinished(&status).into_iter().collect();
+                for name in names.iter().step_by(if label == "intact" { 41 } else { 7 }) {
+                    let i: usize = name.rsplit('-').next().and_then(|x| x.parse().ok()).ok_or(("NamesOriginal".to_string(), name.clone()))?;
+                    let mut got = vec![];
+                    let mut f = rd.get_file(name.clone()).map_err(|e| ("read-error".to_string(), format!("{name}: {e:?}")))?.ok_or(("list-mismatch".to_string(), name.clone()))?;
+                    f.data.read_to_end(&mut got).map_err(|e| ("read-error".to_string(), format!("{name}: {e:?}")))?;
+                    let want = content(i);
+                    if got.len() > want.len() || want[..got.len()] != got[..] {
+                        return Err(("Prefix".into(), name.clone()));
+                    }
+                    if !unf.contains(&archive::label_of(name)) && got != want {
+                        return Err(("FinishedIdentical".into(), name.clone()));
+                    }
+                }
+            }
+            Ok(())
+        });
+        match r {
+            Ok(Ok(())) => done.push(st),
+            Ok(Err((kind, detail))) => viol.push(json!({"kind": kind, "detail": detail, "stack": st, "files": n})),
+            Err(p) => viol.push(json!({"kind": "panic", "detail": p, "stack": st, "files": n})),
+        }
+    }
+    write_json(&args[1], &json!({"mode": mode, "files": n, "stacks_ok": done, "violations": viol}));
+}
